@@ -27,7 +27,15 @@ def oracle (before : D) (op : Op) (impl : String) : List String :=
         else []
       else []
     | _ => []
-  f1 ++ f2 ++ f3 ++ f4
+  -- C09: a daemon for which a stop was requested and whose shutdown command was run (the documented
+  -- way to stop a daemon) is not reported running once its launcher has exited as well
+  let f5 := match op with
+    | .exit _ | .query =>
+      if before.daemon && before.sdcmd && before.cancelled && alive == "0" && running == "true" then
+        [s!"C09:reported-running-after-stop {st} (daemon stopped by its shutdown command, nothing alive)"]
+      else []
+    | _ => []
+  f1 ++ f2 ++ f3 ++ f4 ++ f5
 
 def verdict (fails : List String) : String :=
   if fails.isEmpty then "ok"
